@@ -1,35 +1,71 @@
 """C04 Specifier operators obey their algebraic laws (checked on the implementation directly; theorems on the model)."""
+from dataclasses import replace
 from core import Case
 import gen, gen_spec
 
 IMPL_MODULE = "spec_impl"
-RULE = ("version text V x pairs of candidates related by equality (other spellings, trailing zeros), by adding a local label, or by the order; every law of the "
-        "statement is evaluated on the real Specifier objects for all seven ordered operators built from V; plus model correspondence of contains(); "
-        "non-trivial = all operands accepted")
+RULE = ("version text V (plain or V.*) x pairs of candidates related by equality (other spellings, trailing zeros, epoch written 0!/00!, local labels "
+        "spelled apart), by adding a local label, or by the order (neighbours of V, and pairs far apart on the same side of V); every law of the statement "
+        "is evaluated on the real Specifier objects for all seven ordered operators built from V with prereleases=True, and - where it holds: "
+        "equal candidates, local label, complement/closure/cover on candidates that pass the gate - with prereleases None and False; candidates go in as str, "
+        "Version or Version-subclass objects; plus model correspondence of contains(); non-trivial = all operands accepted")
+KINDS = ["str", "str", "obj", "sub"]
+
+
+def spell_epoch(rng, v, ws):
+    """a spelling with the epoch written out even when it is 0 ("0!1.0", "00!1.0")"""
+    t = gen.spell(rng, v, ws=False, vprefix=False)
+    if v.epoch == 0 and "!" not in t: t = rng.choice(["0!", "00!", "0!"]) + t
+    if rng.random() < 0.3: t = rng.choice(["v", "V"]) + t
+    return gen_spec.pad_ws(rng, t, 0.3) if ws else t
+
 
 def streams(rng, tier):
     q = tier == "quick"
     out = []
-    for _ in range(5000 if q else 100000):
+    for _ in range(6000 if q else 120000):
         V = gen.rand_v(rng, local_p=0.15)
         if rng.random() < 0.5 and len(V.release) < 2: V = gen.V(V.epoch, V.release + (rng.choice(gen.SMALL),), V.pre, V.post, V.dev, V.local)
+        if rng.random() < 0.1: V = gen_spec.zero_tail(rng, V)
         vtxt = gen.spell(rng, V, ws=False)
-        if rng.random() < 0.1: vtxt = gen.spell(rng, gen.V(V.epoch, V.release, None, None, None, None), ws=False) + ".*"
-        nb = gen.neighbours(rng, V) + [V]
+        if rng.random() < 0.15: vtxt = gen.spell(rng, gen.V(V.epoch, V.release, None, None, None, None), ws=False) + ".*"
+        nb = gen_spec.related_structured(rng, V, 6) + [V]
         c = rng.choice(nb)
+        ws = rng.random() < 0.3
+        t1 = t2 = None
         k = rng.random()
-        if k < 0.35:                                                                                                   # equal: zeros appended or stripped
+        if k < 0.3:                                                                                                    # equal: zeros appended or stripped
             rel = c.release + (0,) * rng.randrange(0, 3)
             if rng.random() < 0.5:
                 while len(rel) > 1 and rel[-1] == 0: rel = rel[:-1]
             c2 = gen.V(c.epoch, rel, c.pre, c.post, c.dev, c.local)
-        elif k < 0.6: c2 = gen.fix_local(gen.V(c.epoch, c.release, c.pre, c.post, c.dev, (rng.choice(gen.LOCAL_SEGS),)))   # local added
+        elif k < 0.38:                                                                                                 # equal: only the epoch is spelled differently
+            c2 = c; t2 = spell_epoch(rng, c2, ws)
+        elif k < 0.46:                                                                                                 # equal: same local label, spelled apart (+1.A / +1-a / +01_a)
+            c = gen.fix_local(replace(c, local=tuple(rng.choice(gen.LOCAL_SEGS) for _ in range(rng.choice([2, 3, 4])))))
+            c2 = c
+        elif k < 0.66: c2 = gen.fix_local(gen.V(c.epoch, c.release, c.pre, c.post, c.dev, (rng.choice(gen.LOCAL_SEGS),)))   # local added
+        elif k < 0.8:                                                                                                  # ordered, far apart, same side of V
+            up = rng.random() < 0.5
+            def far(d):
+                r = list(V.release); i = rng.randrange(len(r))
+                r[i] = r[i] + d if up else max(0, r[i] - d)
+                x = replace(rng.choice([V, gen.rand_v(rng)]), epoch=V.epoch, release=tuple(r[:i + 1]) + tuple(gen.small(rng) for _ in range(rng.randrange(0, 3))))
+                return gen.fix_local(x)
+            c, c2 = far(rng.randrange(1, 4)), far(rng.randrange(3, 9))
+            if rng.random() < 0.2: c2 = replace(c2, epoch=c2.epoch + (1 if up else 0))
         else: c2 = rng.choice(nb)
-        out.append(Case("laws", "law.sp.pair", [vtxt, gen.spell(rng, c, ws=False), gen.spell(rng, c2, ws=False)], kind="law"))
+        t1 = gen.spell(rng, c, ws=ws)
+        if t2 is None: t2 = gen.spell(rng, c2, ws=ws)
+        setting = rng.choice("TTTNF")
+        out.append(Case("laws:" + setting, "law.sp.pair", [vtxt, t1, t2, setting, rng.choice(KINDS)], kind="law"))
         if rng.random() < 0.3:
             op = rng.choice(gen_spec.OPS[:7])
-            out.append(Case("contains", "sp.contains", [op + vtxt, rng.choice("NTF"), gen.spell(rng, c2)]))
+            W = gen_spec.WS_U
+            out.append(Case("contains", "sp.query", [rng.choice(W) + op + rng.choice(W) + vtxt + rng.choice(W), rng.choice("NTF"), gen_spec.pad_ws(rng, gen.spell(rng, c2), 0.2), rng.choice("NNTF"), rng.choice("ca"),
+                                                     rng.choice(["contains", "in"]), rng.choice(KINDS)]))
     return out
+
 
 def nontrivial(c, i):
     return c.kind == "law" or i in ("T", "F")
